@@ -1588,7 +1588,7 @@ def c10_runner(P, exe, model_ok, rng, tier, replay=None):
 
 register("C10", gen=gen_parallel, runner=c10_runner, oracles=[oracle.c10], watchdog=30,
          nontrivial=lambda si: sum(1 for c in si.calls if c.cmd == "graph") >= 2 and any(c.cmd == "kernel" and int(c.toks[2]) > 1 and "kernel" in c.O for c in si.calls),
-         tags=par_tags, sections={"update", "elev", "acc", "acc_overloads_agree", "basins", "outlets", "pits", "kernel", "kvisits", "graph"} | GRAPH_SECTIONS,
+         tags=par_tags, sections={"update", "elev", "acc", "acc_overloads_agree", "basins", "outlets", "pits", "kernel", "kvisits", "knodes", "graph"} | GRAPH_SECTIONS,
          rule="cached raster, cache-less raster, profile and mesh grids; operator families with a single router (plain, flooded, spanning-tree resolved, followed by a multi router); every scenario runs the same 1-3 updates (+ accumulate, basins, kernels) first with sequential routers, then with 2..16 threads; kernels applied sequentially and with thread counts 2..16 x minimum block sizes x minimum level sizes in breadth-first / any / depth-first order; everything under ASan and again under the thread sanitizer; non-trivial = both graphs ran and a multi-threaded kernel returned",
          lean_modules=["FsProofs.Properties.ClosedC10", "FsProofs.Properties.ShapesC10", "FsProofs.Properties.ClosedMore", "FsProofs.Properties.C10", "FsProofs.Properties.C10Kernel"],
          theorems=["Fs.Closed.grid_C10_kernel_resolve", "Fs.Shapes.source_shape_C10", "Fs.Closed.raster_C10_kernel_single", "Fs.Closed.raster_C10_kernel_multi", "Fs.Closed.mesh_C10_kernel_single", "Fs.C10.kernel_par_eq_seq", "Fs.C10.multi_kernel_par_eq_seq", "Fs.C10.single_kernel_par_eq_seq", "Fs.C10.level_nonInterfering", "Fs.C10.level_par_eq_seq", "Fs.C10.kernel_par_exists", "Fs.C10.blockSlices_global",
